@@ -53,13 +53,19 @@ def run(chk):
     # R1: the raise
     site = P.func("atsim.potentials._dlpoly_writeTABLE", "writePotentials").site()
     hits = []
-    for conds, exc, node in I.raises:
+    wrote_before = []
+    meta = getattr(I, "raise_meta", [])
+    for idx, (conds, exc, node) in enumerate(I.raises):
         if len(conds) >= 1:
             x = mod4_cond(conds[-1][0]) if conds[-1][1] else None
             if x is not None and ep.equal(x, ep.sym("nr"))[0]:
                 hits.append((conds, exc, node))
+                wrote_before.append(meta[idx]["file_writes"] if idx < len(meta) else None)
     chk.ob("C02.R1", "write() raises when nr mod 4 != 0", bool(hits), site=site, found=[(c, e) for c, e, n in I.raises],
            expect="raise under (nr mod 4 != 0)", key="C02.R1|raise-mod4")
+    chk.ob("C02.R1", "nothing has been written to the output stream when the row count is refused", bool(hits) and all(w == 0 for w in wrote_before),
+           site=site, found="%s write(s) to the stream before the raise" % wrote_before, expect="0 writes before the raise",
+           key="C02.R1|nothing-written-before")
     # the raise must precede emission: the guard is a standing assumption of every write in the block
     ok = any(mod4_cond(c) is not None and v is False for c, v in I.sticky_conds)
     chk.ob("C02.R1", "the modulus guard dominates every record emission (standing assumption of the remaining block)", ok, site=site,
